@@ -43,7 +43,14 @@ func gen(seed int64, tier string, idx int) *pipe.Scenario {
 	case "during-graceful":
 		// slow destination so the graceful stop is still draining
 		sc.Topo.Dests[0].Dst.LatencyUs = []int{3000, 8000}
-		steps = append(steps, pipe.Step{AtEvent: 25 + g.R.Intn(150), Op: "stop"},
+		first := "stop"
+		if idx%12 == 10 {
+			// the graceful stop is the server's shutdown (StopAll), the force stop
+			// its escalation
+			first = "stopall"
+			sc.Name = "during-graceful-shutdown"
+		}
+		steps = append(steps, pipe.Step{AtEvent: 25 + g.R.Intn(150), Op: first},
 			pipe.Step{AtEvent: 0, Op: "forcestop", AfterPrevUs: g.R.Intn(3000)})
 	case "idle":
 		steps = append(steps, pipe.Step{AtEvent: -1, Op: "forcestop"})
